@@ -114,9 +114,14 @@ class Ref:
         self.Z = w.sum()
         self.w = w / self.Z
         self.groups = eigenspaces(self.E)
+        _d = np.diff(np.sort(self.E)); _d = _d[_d > DEG_TOL]
+        self.min_gap = float(_d.min()) if len(_d) else float("inf")     # smallest splitting between distinct eigenspaces
         self.gidx = np.zeros(self.D, dtype=int)
         for g, idx in enumerate(self.groups):
             self.gidx[idx] = g
+        # largest spread of the levels inside one eigenspace cluster (rounding level for exact degeneracies; up to 1e-10 when a
+        # tiny field splits them: the library merges such poles, documented resolution 1e-8)
+        self.max_intra = max(float(self.E[idx].max() - self.E[idx].min()) for idx in self.groups)
 
     # --- operators in the eigenbasis -----------------------------------------------------------
     def C(self, i):
@@ -166,6 +171,28 @@ class Ref:
     def G(self, i, j, z):
         R, P = self._g_pairs(i, j)
         return complex(np.sum(R / (z - P)))
+
+    # Sensitivity terms for the documented merging of poles closer than the library's resolution (1e-8): a level inside an eigenspace
+    # cluster may be replaced by another level of that cluster, i.e. a pole moves by at most 2*max_intra.  max_intra is of rounding
+    # size for exact degeneracies and up to 1e-10 when a tiny field splits them (larger splittings are discarded by the guard).
+    def G_merge_term(self, i, j, z):
+        R, P = self._g_pairs(i, j)
+        return 2.0 * self.max_intra * float(np.sum(np.abs(R) / np.abs(z - P) ** 2))
+
+    def chi_merge_term(self, A, B, z, static=False):
+        w = self.w
+        P = self.E[None, :] - self.E[:, None]
+        M = np.abs(A * B.T)
+        nd = np.abs(P) >= DEG_TOL
+        with np.errstate(divide="ignore", invalid="ignore"):
+            sens = np.where(nd, np.abs(w[None, :] - w[:, None]) / np.abs(z - np.where(nd, P, 1.0)) ** 2, 0.0)
+        t = 2.0 * self.max_intra * float(np.sum(M * sens))
+        if static:
+            t += self.max_intra * self.beta ** 2 * float(np.sum(np.where(nd, 0.0, M * w[:, None])))
+        return t
+
+    def chi_tau_merge_term(self, A, B, tau):
+        return 2.0 * self.max_intra * self.beta * float(abs(self.chiAB_tau(np.abs(A), np.abs(B), tau)))
 
     def G_mats(self, i, j, n):
         return self.G(i, j, 1j * (2 * n + 1) * math.pi / self.beta)
